@@ -421,12 +421,14 @@ class Market(Sector):
         :param supply_eqn: str
         :return:
         """
+        # A supplier is listed once, in one role: stating its supply again revises it. (Listed twice - or as the
+        # residual supplier and with a rule - it would be taken out of the residual twice, and be paid twice.)
+        self.OtherSuppliers = [(sector, eqn) for sector, eqn in self.OtherSuppliers if sector is not supplier]
         if supply_eqn is None or supply_eqn=='':
             self.ResidualSupply = supplier
             return
-        # A supplier is listed once: stating its supply again revises the rule. (Listed twice, it would be taken
-        # out of the residual twice, and be paid twice.)
-        self.OtherSuppliers = [(sector, eqn) for sector, eqn in self.OtherSuppliers if sector is not supplier]
+        if self.ResidualSupply is supplier:
+            self.ResidualSupply = None
         self.OtherSuppliers.append((supplier, supply_eqn))
 
     def _GenerateMultiSupply(self):
